@@ -648,7 +648,9 @@ def category_sets(tree: ast.AST, fn_name: str) -> list[str]:
                 if isinstance(n, ast.Set) and n.elts and all(
                         isinstance(x, ast.Attribute) and isinstance(x.value, ast.Name) and x.value.id == "ComponentCategory"
                         and x.attr in CATS for x in n.elts):
-                    return [CATS[x.attr] for x in n.elts]
+                    # a set literal has no order: list it in declaration order of the enum
+                    order = list(CATS.values())
+                    return sorted({CATS[x.attr] for x in n.elts}, key=order.index)
     return []
 
 
